@@ -593,8 +593,10 @@ func c03Codec(c *core.Ctx, m *serverModel) {
 			for _, in := range b.Instrs {
 				if st, ok := in.(*ssa.Store); ok {
 					if _, fld, isF := facts.FieldOf(st.Addr); isF && fld == "Kind" {
-						if k, ok := facts.ConstInt(st.Val); ok {
-							assigned[k] = true
+						if ks, ok := constIntsOf(st.Val, 3); ok {
+							for _, k := range ks {
+								assigned[k] = true
+							}
 						}
 					}
 				}
